@@ -422,6 +422,11 @@ def explore(tier, seed, model_ok=True, focus=False):
         if len(ex.samples) < 3:
             ex.samples.append(dict(seed=sd, cfg=cfg, ops=[[op, "ok" if o["ok"] else o["msg"], o["outs"]] for op, o in trace[:14]]))
     for sw in sweeps:
+        if sw.get("rejected"):
+            rj = sw["rejected"]
+            ex.failures.append(dict(key="valid-lock-options-rejected", what=f"{rj['step']} refused the well-formed option set {sw['opts']} handed over as {rj['order']}: {rj['msg']}",
+                                    replay=dict(kind="sweep", opts=sw["opts"], seed=sw["seed"])))
+            continue
         n = sum(len(v) for _, _, v in sw["rows"])
         ex.evaluations += n
         ex.count("sweep:option_sets")
@@ -465,6 +470,8 @@ def replay(data):
     fails = []
     if rp.get("kind") == "sweep":
         sw = sl.run_sweep(rp["seed"], opts=rp["opts"])
+        if sw.get("rejected"):
+            return [dict(key="valid-lock-options-rejected", what=str(sw["rejected"]))]
         for key, what in sweep_monitor(sw):
             fails.append(dict(key=key, what=what))
         return fails
